@@ -95,7 +95,11 @@ def generate(seed, tier="quick"):
                 sid_n += 1
                 sid = f"s{sid_n}"
                 site, obs = W.gen_site(rng, prof, dict(o, prev=["none"]), sid, op=s0["op"])
+                if s0["op"] == "item":
+                    # same keys and the same operation per key as in the first file (the previous content belongs to them), other data
+                    obs = {"keys": [[k, cop, W.gen_site(rng, prof, dict(o, prev=["none"], max_obs=3), sid, op=cop)[1]["vals"]] for k, cop, _ in s0["obs"]["keys"]]}
                 site.update(place=s0["place"], arg=s0["arg"], prev=s0["prev"], name=s0.get("name", sid0))
+                site["obs"] = obs
                 sites[sid] = site
                 per_site.append(_events_for(rng, sid, site, obs))
         else:
@@ -103,6 +107,7 @@ def generate(seed, tier="quick"):
                 sid_n += 1
                 sid = f"s{sid_n}"
                 site, obs = W.gen_site(rng, prof, o, sid)
+                site["obs"] = obs
                 sites[sid] = site
                 per_site.append(_events_for(rng, sid, site, obs))
         # a site whose hand-written argument reads a global (re-evaluation clause)
